@@ -226,3 +226,93 @@ func c14mb(nseg, maxLen, ifsLen int) {
 func C14_MB2()   { c14mb(2, 2, 2) }
 func C14_MB3()   { c14mb(3, 2, 2) }
 func C14_MB1L4() { c14mb(1, 4, 2) }
+
+// C14_QuotedAt: "a quoted part, even an empty one, always contributes a
+// field", next to "$@": a double-quoted word of up to three parts drawn from
+// empty expansions, "$@", "${@}", "$*", a literal and a variable whose value
+// contains IFS characters, with 0..3 positional parameters (one of them may
+// be empty, one contains a blank). Reference: POSIX 2.5.2 — "$@" generates one
+// field per parameter, joined to what precedes and follows; with no
+// parameters it generates nothing, but the other quoted parts (even null
+// ones) still produce a field.
+func C14_QuotedAt() {
+	nparts := nd.Choice(4)
+	params := [][]string{{}, {"p"}, {""}, {"p", "q r"}, {"", "q"}, {"p", "", "r"}}[nd.Choice(6)]
+	env := interp.NewExecEnv("sh", params...)
+	env.Opts = interp.NoGlob
+	env.Set("e", "")
+	env.Set("v", "b c")
+	last := nd.Str(1) // the last parameter gets a symbolic suffix
+	if len(params) > 0 {
+		env.Args[len(env.Args)-1] += last
+		params = append([]string{}, env.Args[1:]...)
+	}
+	var parts ast.Word
+	cur := ""
+	var fields []string
+	others, expanded := 0, false
+	obs := "\""
+	for k := 0; k < nparts; k++ {
+		switch nd.Choice(7) {
+		case 0:
+			parts = append(parts, mkParam("x", ":-", ast.Word{}))
+			obs += "${x:-}"
+			others++
+		case 1:
+			parts = append(parts, &ast.ParamExp{Name: &ast.Lit{Value: "e"}})
+			obs += "$e"
+			others++
+		case 2:
+			parts = append(parts, &ast.Lit{Value: "a"})
+			obs += "a"
+			cur += "a"
+			others++
+		case 3:
+			parts = append(parts, &ast.ParamExp{Name: &ast.Lit{Value: "v"}})
+			obs += "$v"
+			cur += "b c"
+			others++
+		case 4:
+			parts = append(parts, &ast.ParamExp{Name: &ast.Lit{Value: "*"}})
+			obs += "$*"
+			for j, p := range params {
+				if j > 0 {
+					cur += " "
+				}
+				cur += p
+			}
+			others++
+		default:
+			if nd.Choice(2) == 0 {
+				parts = append(parts, &ast.ParamExp{Name: &ast.Lit{Value: "@"}})
+				obs += "$@"
+			} else {
+				parts = append(parts, mkParam("@", "", nil))
+				obs += "${@}"
+			}
+			for j, p := range params {
+				if j > 0 {
+					fields = append(fields, cur)
+					cur = ""
+				}
+				cur += p
+				expanded = true
+			}
+		}
+	}
+	if others > 0 || expanded || nparts == 0 {
+		fields = append(fields, cur)
+	}
+	nd.Observe(obs + "\" #" + itoa(len(params)))
+	got, err := env.Expand(ast.Word{&ast.Quote{Tok: `"`, Value: parts}}, 0)
+	nd.Assert(err == nil, "expansion succeeds")
+	if err != nil {
+		return
+	}
+	nd.Assert(len(got) == len(fields), "number of fields of a double-quoted word containing $@")
+	if len(got) == len(fields) {
+		for k := range got {
+			nd.Assert(got[k] == fields[k], "field content of a double-quoted word containing $@")
+		}
+	}
+}
